@@ -530,6 +530,19 @@ fn enabled_c06(w: &RouterWorld, cfg: &Cfg, v: &mut Vec<(Act, u8)>) {
             v.push((Act::Pub { c, t: 0, qos: q, retain: false, empty: false, props: 0 }, 0));
         }
         v.push((Act::Ping { c }, 0));
+        if c == 0 && matches!(cfg.variant, 1 | 2 | 4) && w.model.accepted.len() < 700 {
+            // many requests of the paused / backlogged subscriber itself in one batch
+            for n in [60u16, 250] {
+                v.push((Act::Burst { c, t: 0, qos: 1, n }, 0));
+            }
+        }
+        if c == 0 && matches!(cfg.variant, 2 | 4) {
+            if let Some(l) = w.clients[0].link.as_ref() {
+                if l.stalled {
+                    v.push((Act::Unstall { c }, 0));
+                }
+            }
+        }
         for f in 0..cfg.filters.len() as u8 {
             // subscribed or not: an UNSUBSCRIBE is owed exactly one UNSUBACK either way
             v.push((Act::Unsub { c, f }, 0));
@@ -766,6 +779,10 @@ fn enabled_c16(w: &RouterWorld, cfg: &Cfg, v: &mut Vec<(Act, u8)>) {
             if c == 0 {
                 for &k in wills {
                     v.push((Act::Connect { c, clean: true, will: k }, 0));
+                }
+                if w.model.clients[0].ever_connected {
+                    // the same client id again, this time without a will
+                    v.push((Act::Connect { c, clean: true, will: 0 }, 0));
                 }
             } else {
                 v.push((Act::Connect { c, clean: true, will: 0 }, 0));
